@@ -42,8 +42,8 @@ CLAIMED = {
          "placed in 21 enclosing contexts nested to depth 2 (quick) / 3; Prepare must return an error and the same contexts with a valid fragment must be accepted (vacuity guard); plus token-boundary truncations of valid programs with an open bracket.", "4 C13"),
  "C14": ("The lexer, parser and compiler executed on symbolic script bytes: string literals in both quote styles whose body is up to 3 (quick) / 4 characters, each any ASCII byte 1..127 or a multi-byte character, compared with a reference unescape; regexp literals (pattern and i/m flags reach the constant pool unchanged); integer literals of up to 4 / 9 symbolic digits (value = sum of digits, decided by the solver), decimals, ranges; "
          "division-vs-regexp after 18 kinds of preceding text; token sequences with symbolic whitespace and // comments in the gaps; termination of NextToken for every byte string of length <= 2 / 3.", "4 C14"),
- "C20": ("API part only (the command-line driver is not covered yet, see DESIGN.md): Run against Execute for values of all types and provenances incl. a host function returning nothing, run-time errors and scripts running off the end; SetVariable/GetVariable round trips for all types in three call orders; host functions of arity 0..3 with symbolic distinct arguments and all result types incl. void; "
-         "NoOptimize leaves the compiler's output untouched byte for byte.", "4 C20"),
+ "C20": ("API: Run against Execute for values of all types and provenances incl. a host function returning nothing, run-time errors and scripts running off the end; SetVariable/GetVariable round trips for all types in three call orders, also against objects with a same-named field; host functions of arity 0..3 with symbolic distinct arguments and all result types incl. void; NoOptimize leaves the compiler's output untouched byte for byte. "
+         "Driver (harness in package main of cmd/evalfilter): runCmd is driven through its real Arguments(flag.FlagSet)+Execute with 14 scripts x 6 JSON documents (absent, valid, invalid, wrong shape, unreadable) x -no-optimizer x -timeout, and its captured standard output must be the line built from what Execute returns for the same script and decoded document (or the error line); lex, parse, bytecode and run return normally on every script text of <= 2 (quick) / 3 symbolic bytes over the lexer's alphabet. Files, JSON decoding of concrete text and context.WithTimeout are stubs; the built binary as a process, main's os.Exit and the subcommands dispatcher are outside.", "4 C20"),
  "C12": ("The real parser is run on every pair (quick) / triple (thorough) of the 18 binary operators, with prefix operators before and index/call after one operand, and its tree is compared structurally with an independent precedence-climbing parser parameterised only by the statement's binding order; "
          "minimal, redundant and full parenthesisations of a OP1 b OP2 c over 12 operators are executed on symbolic integers and must agree with each other and with the language definition of the implied grouping (solver, all operand values); ternary arms with and without redundant parentheses, nested ternaries rejected.", "4 C12"),
  "C18": ("A bytecode verifier (decoder, control-flow graph, abstract stack-depth interpretation over all CFG paths whether or not an input can take them) is applied to the main body and every function body, both as compiled and as the machine will run them (public walkers, optimizer on and off), for every program of the control-flow and scope generators, "
